@@ -51,12 +51,13 @@ class CropCalendar(Contract):
     merge = True
     np_floats = True
 
-    def __init__(self, N, scaled=False):
-        self.N, self.scaled = N, scaled
-        self.name = f"N{N}{',baseline_scaled' if scaled else ''}"
+    def __init__(self, N, scaled=False, ndarray_seasonality=False):
+        self.N, self.scaled, self.nd = N, scaled, ndarray_seasonality
+        self.name = f"N{N}{',baseline_scaled' if scaled else ''}{',seasonality given as a numpy array' if ndarray_seasonality else ''}"
 
     def inputs(self, S):
-        consts, p = crop_constants(S, self.N, False, False)
+        consts, p = crop_constants(S, self.N, False, False, seasonality_as_ndarray=self.nd)
+        p["consts"] = consts
         params = S.call(PARAMS, "Parameters")
         p["calls"] = [dict(file=PARAMS, func="Parameters.init_outdoor_crops", args=[params, {}, consts])]
         season = [unwrap(s) for s in p["season"]]
@@ -93,6 +94,9 @@ class CropCalendar(Contract):
             nonneg.append(grown[m] >= 0)
         out["series_is_baseline_x_seasonal_share_x_yearly_ratio"] = ok
         out["one_non_negative_value_per_month"] = And(V(length(oc.NO_RELOCATION_KCALS_GROWN) == N), V(length(oc.KCALS_GROWN) == N), *nonneg)
+        # the caller's seasonality vector is an INPUT: it must come back as it went in (also when it is a numpy array)
+        given = unwrap(a["consts"]).entries["SEASONALITY"]
+        out["callers_seasonality_left_as_it_was"] = And(*[V(given.get(m) if hasattr(given, "get") else given[m]) == a["season"][m] for m in range(12)])
         if self.scaled:
             oc2 = V(r[2][1])
             g2 = seq(oc2.NO_RELOCATION_KCALS_GROWN, N)
@@ -620,6 +624,7 @@ def _mk():
         for opt in ("zero", "baseline", "nuclear_winter"):
             cs.append(Fish(N, opt))
     cs.append(CropCalendar(120, scaled=True))
+    cs.append(CropCalendar(48, ndarray_seasonality=True))
     cs.append(InitialStoredFood())
     for N in (48, 120):
         for d in (0, 3, 6):
